@@ -53,7 +53,7 @@ mod imp {
                     args.push(SA::S(*s));
                     i += 1;
                 }
-                Field::PayU32 | Field::PaySym => {
+                Field::PayU32 | Field::PaySym | Field::PayOther(_) => {
                     let SyntaxElem::String(p) = &rest[i] else { return Err("payload expected".into()) };
                     args.push(SA::P(p.clone()));
                     i += 1;
